@@ -40,23 +40,11 @@ def prop(id, **kw):
     kw.setdefault("assumptions", [])
     PROPS[id] = kw
 
-prop("C20", pkg="c20",
-     rule="Bounded-exhaustive sweeps: every (length 0..160, alignment, position, deviation byte) single deviation from an all-valid "
-          "string for Valid/ValidPrint (all 256 byte values for lengths <= 24), all 128x128 ASCII byte pairs at 3 positions of 17 lengths "
-          "and 12 fold-neighbour pairs at every position with every prefix/suffix length for the fold predicates, all bytes / sampled runes, "
-          "plus rapid-generated strings; run for the default (assembly) and the purego build. Non-trivial = first operand has >= 8 bytes "
-          "(reaches a word/vector block); distinct = FNV-64 of (function, operands, alignment).",
-     quick=dict(shards=8, scale=1, timeout=600),
-     thorough=dict(shards=16, scale=30, timeout=3000),
-     builds=[dict(name="default", tags=[], race=False), dict(name="purego", tags=["purego"], race=False)],
-     exhaustive=True,
-     technique="bounded-exhaustive enumeration + rapid property-based testing against byte-wise reference definitions, two builds (asm, purego)",
-     level_text="Exploration, exhaustive within the stated bounds: every single-deviation string up to 160 bytes at every alignment and every "
-                "ASCII byte pair at block-boundary lengths is compared with a one-line reference loop, in both the assembly and the purego build; "
-                "a predicate that mis-answers any such input is reported with that input. Inputs longer than 160 bytes are only sampled (rapid, <= 600 bytes).",
-     level_note="Trusted base: the byte-wise definitions in harness/c20 and the Go toolchain. Nothing is claimed for inputs beyond the enumerated bounds.",
-     assumptions=["byte-wise reference definitions in the harness (one-line loops)",
-                  "negative runes are outside the domain of ValidRune (the library answers true for them; the statement does not define them)"])
+# configuration lives in bin/propcfg/<id>.py, one file per property, each calling prop("<id>", ...)
+def load_props():
+    d = os.path.join(os.path.dirname(os.path.abspath(__file__)), "propcfg")
+    for f in sorted(glob.glob(os.path.join(d, "c*.py"))):
+        exec(compile(open(f).read(), f, "exec"), {"prop": prop, "DEFAULT_BUILD": DEFAULT_BUILD})
 
 
 def log(*a):
@@ -71,11 +59,28 @@ def splitmix(x):
     return z ^ (z >> 31)
 
 
+ALT_REPO = os.environ.get("VERIF_REPO", "").rstrip("/")
+ALT_TAG = hashlib.sha1(ALT_REPO.encode()).hexdigest()[:8] if ALT_REPO else ""
+
+
+def modfile_args():
+    """With VERIF_REPO=<dir> (sensitivity runs against a scratch copy of the library) build through an
+    alternative go.mod whose replace directive points at that copy. Registered commands never set it."""
+    if not ALT_REPO:
+        return []
+    os.makedirs(BUILD, exist_ok=True)
+    alt = os.path.join(BUILD, "alt-%s.mod" % ALT_TAG)
+    src = open(os.path.join(HARNESS, "go.mod")).read().replace("=> /repo", "=> " + ALT_REPO)
+    open(alt, "w").write(src)
+    shutil.copy(os.path.join(HARNESS, "go.sum"), alt[:-4] + ".sum")
+    return ["-modfile", alt]
+
+
 def build(pid, variant, fuzz=False):
     """go test -c for the property package; returns path of the binary or None."""
     cfg = PROPS[pid]
     os.makedirs(BUILD, exist_ok=True)
-    name = "%s-%s%s.test" % (cfg["pkg"], variant["name"], "-fuzz" if fuzz else "")
+    name = "%s-%s%s%s.test" % (cfg["pkg"], variant["name"], "-fuzz" if fuzz else "", "-" + ALT_TAG if ALT_TAG else "")
     out = os.path.join(BUILD, name)
     tags = ["verif"] + list(variant.get("tags", []))
     cmd = ["go", "test", "-c", "-vet=off", "-tags", ",".join(tags), "-o", out]
@@ -83,6 +88,7 @@ def build(pid, variant, fuzz=False):
         cmd.append("-race")
     if fuzz:
         cmd += ["-fuzz", "Fuzz"]
+    cmd += modfile_args()
     cmd.append("./" + cfg["pkg"])
     # go.sum of the harness must cover /repo's requirements
     r = subprocess.run(cmd, cwd=HARNESS, env=GOENV, stdout=subprocess.PIPE, stderr=subprocess.STDOUT, text=True)
@@ -120,7 +126,7 @@ def run_shards(pid, tier, tcfg, variant, binary, wdir, seed, extra_env=None):
             "VERIF_OUT": os.path.join(wdir, "shard-%s.json" % tag),
             "VERIF_HASHES": os.path.join(wdir, "hashes-%s.bin" % tag),
             "VERIF_JOURNAL": os.path.join(wdir, "journal-%s.json" % tag),
-            "VERIF_REPLAY_DIR": os.path.join(VERIF, "replays", pid),
+            "VERIF_REPLAY_DIR": os.path.join(wdir, "replays") if ALT_TAG else os.path.join(VERIF, "replays", pid),
             "VERIF_KNOWN": os.path.join(VERIF, "known_findings.json"),
             "VERIF_SEED": str(seed),
             "VERIF_TIER": tier,
@@ -195,14 +201,18 @@ def run_check(pid, tier, replay=None):
     t0 = time.time()
     seed = int(os.environ.get("VERIF_SEED", "1") or "1")
     tcfg = dict(cfg[tier])
-    wdir = os.path.join(WORK, "%s-%s" % (pid, tier if not replay else "replay"))
+    wdir = os.path.join(WORK, "%s-%s%s" % (pid, tier if not replay else "replay", "-" + ALT_TAG if ALT_TAG else ""))
     shutil.rmtree(wdir, ignore_errors=True)
     os.makedirs(wdir, exist_ok=True)
     rdir = os.path.join(VERIF, "replays", pid)
+    if ALT_TAG:
+        rdir = os.path.join(wdir, "replays")
     if not replay:
         shutil.rmtree(rdir, ignore_errors=True)
     os.makedirs(rdir, exist_ok=True)
     evidence_path = os.path.join(VERIF, "evidence", pid + ".json")
+    if ALT_TAG:
+        evidence_path = os.path.join(wdir, "evidence.json")
     os.makedirs(os.path.dirname(evidence_path), exist_ok=True)
 
     builds = cfg["builds"]
@@ -439,4 +449,5 @@ def main(argv):
 
 
 if __name__ == "__main__":
+    load_props()
     sys.exit(main(sys.argv))
